@@ -3,7 +3,7 @@ import math
 from fractions import Fraction as F
 
 from harness import nswire
-from harness.common import rat
+from harness.common import rat, corpus_cases
 
 PID = 'C01'
 MODULES = ['NoteSeqVerif.Props.C01', 'NoteSeqVerif.Props.C01_float']
@@ -37,19 +37,120 @@ def generate(chk):
 
 
 # ----------------------------------------------------------------------------- generators
+ZEROISH = [0.0, 0.0, -0.0, 5e-324, -5e-324, 2.2250738585072014e-308, 1e-300, 1e-18, 1e-12, 1e-9, -1e-12]
+
+
+def near_value(rng, x):
+    """a double nearly equal to x (never equal): 1-3 ulps or 1e-12 .. 1e-6 (relative) away, either side"""
+    if rng.random() < 0.5:
+        n = rng.choice([-3, -2, -1, 1, 2, 3])
+        return nswire.nextafter_n(x, n), 'ulps'
+    y = x * (1 + rng.choice([-1, 1]) * rng.choice([1e-12, 1e-11, 1e-10, 1e-9, 1e-8, 1e-7, 1e-6]))
+    return (y, 'rel') if y != x else (nswire.nextafter_n(x, 1), 'ulps')
+
+
 def gen_time(rng, sps):
-    """times from four sub-streams: arbitrary, on-grid, half-step boundary +-ulps, near zero/negative."""
+    """times from sub-streams: arbitrary, on-grid, half-step boundary +-ulps (small and large step numbers, k/sps and the
+    decimal literal), near zero, negative (incl. the -1/2, -3/2, -2 step boundaries +-ulps)."""
     k = rng.random()
-    if k < 0.3:
+    if k < 0.25:
         return rng.uniform(0, 20), 'arbitrary'
-    if k < 0.5:
+    if k < 0.42:
         return rng.randrange(0, 200) / sps, 'on-grid'
-    if k < 0.85:
+    if k < 0.72:
         t = (rng.randrange(0, 400) + 0.5) / sps
         return nswire.nextafter_n(t, rng.randrange(-3, 4)), 'half-step+-ulps'
+    if k < 0.78:
+        # long sequences: step numbers 1e4 .. 1e7, where t*sps carries a visible rounding error
+        t = (rng.randrange(10**4, 10**7) + 0.5) / sps
+        return nswire.nextafter_n(t, rng.randrange(-3, 4)), 'half-step+-ulps:large'
+    if k < 0.83:
+        # the half-step boundary as a decimal literal (what a file parser / a human writes), 6-12 digits
+        return round((rng.randrange(0, 400) + 0.5) / sps, rng.choice([6, 9, 12])), 'half-step:decimal-literal'
+    if k < 0.86:
+        return nswire.nextafter_n(rng.randrange(0, 200) / sps, rng.choice([-1, 1])), 'on-grid+-ulp'
     if k < 0.93:
-        return rng.choice([0.0, 0.49 / sps, 0.5 / sps, 1e-9]), 'near-zero'
-    return -rng.choice([0.4, 0.5, 1.0, 1.4, 1.5, 1.6, 2.5]) / sps, 'negative'
+        return rng.choice([0.0, -0.0, 0.49 / sps, 0.5 / sps, nswire.nextafter_n(0.5 / sps, rng.choice([-1, 1])), 1e-9, 1e-300]), 'near-zero'
+    if k < 0.97:
+        return -rng.choice([0.4, 0.5, 1.0, 1.4, 1.5, 1.6, 2.5]) / sps, 'negative'
+    return nswire.nextafter_n(-rng.choice([0.5, 1.5, 2.0]) / sps, rng.randrange(-2, 3)), 'negative-boundary+-ulps'
+
+
+def gen_tempos(rng, qpm, focus, hist):
+    """0-4 tempos in random storage order.  `focus`: every equality decision of the rejection clause gets its
+    near-coincidence (later qpm 1-3 ulps / 1e-12..1e-6 relative beside the first, first qpm beside the default 120,
+    first time a few ulps / a subnormal beside 0, two events at times one ulp apart deciding which one is "first")."""
+    n = rng.choice([1, 1, 2, 3, 4 if focus else 2])
+    if focus:
+        first_time = rng.choice(ZEROISH + [1.5, 1e-9])
+        if rng.random() < 0.35:
+            qpm, kind = near_value(rng, 120.0) if rng.random() < 0.7 else (120.0, 'exact')
+            hist.add('tempo:first-beside-default-120:' + kind)
+        if first_time != 0 or math.copysign(1, first_time) < 0:
+            hist.add('tempo:first-time-beside-zero' if abs(first_time) < 1e-6 else 'tempo:first-time-later')
+    else:
+        first_time = rng.choice([0.0, 0.0, 1.5])
+    tempos = [(first_time, qpm)]
+    for _ in range(n - 1):
+        t = rng.choice([0.0, 1.5, 2.0, 5.0])
+        m = rng.random()
+        if not focus:
+            q = qpm if m < 0.6 else rng.choice([60.0, 100.0])
+        else:
+            t = rng.choice([t, first_time, nswire.nextafter_n(first_time, rng.choice([-1, 1])), rng.choice(ZEROISH)])
+            if m < 0.4:
+                q = qpm
+            elif m < 0.9:
+                q, kind = near_value(rng, qpm)
+                hist.add('tempo:later-nearly-equal:' + kind)
+            else:
+                q = rng.choice([60.0, 100.0])
+        tempos.append((t, q))
+    rng.shuffle(tempos)
+    hist.add('tempo:%d' % n)
+    return tempos
+
+
+SIGS = [(4, 4), (4, 4), (3, 4), (6, 8), (0, 4), (4, 3), (4, 0), (5, 16), (4, -4)]
+DENS = [1, 2, 4, 8, 16, 32, 64, 128, 1024, 2**30, 3, 5, 6, 7, 9, 12, 15, 17, 24, 31, 33, 48, 96, 127, 129, 255, 257,
+        2**30 - 1, 2**30 + 1, 2**31 - 1, 0, -1, -2, -4, -8, -2**31]
+
+
+def gen_tsigs(rng, focus, hist):
+    n = rng.choice([1, 1, 2, 3, 4 if focus else 2])
+    if not focus:
+        sig = rng.choice(SIGS)
+        tss = [(rng.choice([0.0, 0.0, 2.0]), sig)]
+        for _ in range(n - 1):
+            tss.append((rng.choice([0.0, 1.0, 3.0]), sig if rng.random() < 0.6 else rng.choice([(3, 4), (4, 4)])))
+    else:
+        m = rng.random()
+        if m < 0.4:     # (numerator, denominator) == (4, 4) and its neighbours, off zero by next to nothing
+            sig = rng.choice([(4, 4), (4, 4), (4, 8), (8, 4), (4, 2), (2, 4), (3, 4), (5, 4), (2, 2), (8, 8), (4, 16), (-4, 4)])
+        elif m < 0.8:   # power-of-two test and zero numerator
+            sig = (rng.choice([4, 4, 3, 1, 0, 0, -1, 7]), rng.choice(DENS))
+        else:
+            sig = rng.choice(SIGS)
+        first_time = rng.choice(ZEROISH + [2.0, 1e-9])
+        if first_time != 0:
+            hist.add('tsig:first-time-beside-zero' if abs(first_time) < 1e-6 else 'tsig:first-time-later')
+        tss = [(first_time, sig)]
+        for _ in range(n - 1):
+            t = rng.choice([0.0, 1.0, 3.0, first_time, nswire.nextafter_n(first_time, rng.choice([-1, 1])), rng.choice(ZEROISH)])
+            m = rng.random()
+            if m < 0.5:
+                s2 = sig
+            elif m < 0.9:   # differs in exactly one component / is ratio-equal / swapped
+                s2 = rng.choice([(sig[0], sig[1] * 2), (sig[0], sig[1] // 2 if sig[1] > 1 else 2), (sig[0] + 1, sig[1]),
+                                 (sig[0] * 2, sig[1] * 2), (sig[1], sig[0]), (sig[0] - 1, sig[1])])
+                s2 = (max(-2**31, min(2**31 - 1, s2[0])), max(-2**31, min(2**31 - 1, s2[1])))
+                hist.add('tsig:later-differs-in-one-component' if s2 != sig else 'tsig:later-equal')
+            else:
+                s2 = rng.choice([(3, 4), (4, 4)])
+            tss.append((t, s2))
+    rng.shuffle(tss)
+    hist.add('tsig:%d' % n)
+    return tss
 
 
 def gen_case(rng):
@@ -61,38 +162,34 @@ def gen_case(rng):
         sps = float(res)
     else:
         res = rng.choice([1, 2, 3, 4, 4, 6, 8, 12, 24, 96, rng.randrange(1, 97)])
-        qpm = rng.choice([120.0, 60.0, 90.5, 10.0, 480.0, rng.uniform(10, 480)])
+        qpm = rng.choice([120.0, 60.0, 90.5, 10.0, 480.0, rng.uniform(10, 480), rng.uniform(10, 480),
+                          # decimal tempos and tempos as a MIDI file gives them (60e6 / microseconds per quarter)
+                          100.1, 133.33, 200 / 3, 87.3, 60e6 / rng.randrange(125000, 6000000), round(rng.uniform(10, 480), 2)])
         sps = res * qpm / 60.0
-        # tempos: 0-3, random storage order, some equal, some changing
-        k = rng.random()
-        if k < 0.15:
+        # near-coincidences for the rejection clause: on the tempos (time signatures harmless, so that the tempo decisions
+        # are reached), on the time signatures, or on both
+        focus = rng.choice(['', '', '', '', '', 'tempo', 'tempo', 'tsig', 'tsig', 'tempo+tsig'])
+        if focus:
+            hist.add('reject-focus:' + focus)
+        # tempos: 0-4, random storage order, some equal, some nearly equal, some changing
+        if rng.random() < 0.15:
             hist.add('tempo:none')
             sps = res * 120.0 / 60.0
         else:
-            n = rng.choice([1, 1, 2, 3])
-            first_time = rng.choice([0.0, 0.0, 1.5])
-            tempos = [(first_time, qpm)]
-            for _ in range(n - 1):
-                tempos.append((rng.choice([0.0, 1.5, 2.0, 5.0]), qpm if rng.random() < 0.6 else rng.choice([60.0, 100.0])))
-            rng.shuffle(tempos)
-            for (t, q) in tempos:
+            for (t, q) in gen_tempos(rng, qpm, 'tempo' in focus, hist):
                 x = ns.tempos.add()
                 x.time, x.qpm = t, q
-            hist.add('tempo:%d' % n)
-        k = rng.random()
-        if k < 0.3:
+            sps = res * min(ns.tempos, key=lambda t: t.time).qpm / 60.0
+        if focus == 'tempo' and rng.random() < 0.8:
+            for _ in range(rng.choice([0, 1, 1, 2])):
+                ns.time_signatures.add(time=0.0, numerator=3, denominator=4)
+            hist.add('tsig:harmless')
+        elif rng.random() < 0.3:
             hist.add('tsig:none')
         else:
-            n = rng.choice([1, 1, 2, 3])
-            sig = rng.choice([(4, 4), (4, 4), (3, 4), (6, 8), (0, 4), (4, 3), (4, 0), (5, 16), (4, -4)])
-            tss = [(rng.choice([0.0, 0.0, 2.0]), sig)]
-            for _ in range(n - 1):
-                tss.append((rng.choice([0.0, 1.0, 3.0]), sig if rng.random() < 0.6 else rng.choice([(3, 4), (4, 4)])))
-            rng.shuffle(tss)
-            for (t, (a, b)) in tss:
+            for (t, (a_, b_)) in gen_tsigs(rng, 'tsig' in focus, hist):
                 x = ns.time_signatures.add()
-                x.time, x.numerator, x.denominator = t, a, b
-            hist.add('tsig:%d' % n)
+                x.time, x.numerator, x.denominator = t, a_, b_
     allow_neg = rng.random() < 0.25
     for _ in range(rng.choice([0, 1, 3, 8, 20, 40])):
         n = ns.notes.add()
@@ -102,6 +199,12 @@ def gen_case(rng):
             a, b = abs(a), abs(b)
         if a > b:
             a, b = b, a
+        if rng.random() < 0.2:
+            # minimum-length rule / same step or adjacent steps: end equal to the start, ulps after it (possibly across a
+            # half-step boundary), exactly half a step / one step after it
+            m = rng.randrange(4)
+            b = a if m == 0 else nswire.nextafter_n(a, rng.choice([1, 2, 3])) if m == 1 else a + 0.5 / sps if m == 2 else a + 1.0 / sps
+            kb = 'end-beside-start'
         n.start_time, n.end_time = a, b
         n.pitch, n.velocity = rng.randrange(128), rng.randrange(1, 128)
         n.instrument, n.voice = rng.randrange(4), rng.randrange(1000)
@@ -111,7 +214,10 @@ def gen_case(rng):
         t, k = gen_time(rng, sps)
         ev.time = t if allow_neg else abs(t)
     ends = [n.end_time for n in ns.notes]
-    ns.total_time = max(ends + [0.0]) if rng.random() < 0.7 else rng.uniform(0, 25)
+    m = rng.random()
+    # total_time: the last note end, a time of its own near a half-step boundary, one ulp before the last end, arbitrary
+    ns.total_time = (max(ends + [0.0]) if m < 0.55 else abs(gen_time(rng, sps)[0]) if m < 0.75
+                     else nswire.nextafter_n(max(ends + [0.0]), -1) if m < 0.8 and max(ends + [0.0]) > 0 else rng.uniform(0, 25))
     return mode, res, ns, hist
 
 
@@ -243,11 +349,20 @@ def run(chk):
         'protobuf deepcopy semantics; CPython sorted() stability'])
     chk.rule = ('generated unquantized sequences (0-40 notes, control changes, annotations, 0-3 tempos/time signatures in '
                 'random storage order) with times from: arbitrary doubles, on-grid k/sps, half-step boundaries (k+1/2)/sps '
-                'moved by -3..+3 ulps, near-zero and negative times; non-trivial = distinct input whose result is a value or a documented error')
+                'moved by -3..+3 ulps (step numbers up to 1e7, also as decimal literals), near-zero and negative times (the -1/2, '
+                '-3/2, -2 step boundaries +-ulps), note ends equal to / ulps after / exactly one step after the start; for the '
+                'rejection clause every equality decision gets its near-coincidence: later tempos 1-3 ulps and 1e-12..1e-6 relative '
+                'beside the first, first tempo beside the default 120, tempo / time-signature times -0.0, +-5e-324, 1e-300 .. 1e-9 '
+                'and one ulp beside each other, signatures differing in one component / ratio-equal, denominators around powers of '
+                'two up to 2^31-1, zero and negative; decimal and MIDI-derived tempos; '
+                'non-trivial = distinct input whose result is a value or a documented error')
     rng = chk.subrng('corr')
     reqs, impl, cases = [], [], []
-    for i in range(chk.n(1500, 60000)):
-        mode, res, ns, hist = gen_case(rng)
+    gen = [gen_case(rng) for _ in range(chk.n(3000, 60000))]
+    corp = []
+    for name, o in corpus_cases(PID):
+        corp.append((o['mode'], int(o['resolution']), nswire.decode(o['sequence']), {'corpus'}))
+    for mode, res, ns, hist in corp + gen:
         line = '%s %d %s' % (mode, res, nswire.encode(ns))
         f = sl.quantize_note_sequence if mode == 'rel' else sl.quantize_note_sequence_absolute
         reqs.append(line)
